@@ -16,6 +16,7 @@ from ..core import (
     enclosing_class,
     enclosing_function,
     is_self_attr,
+    iteration_around,
     loc,
     method,
     methods,
@@ -538,6 +539,26 @@ def r6b_critical_path_is_runtime(ctx: Context) -> None:
               "is not the weight of any path of the graph in runtimes")
 
 
+def r9_remove_detaches_children(ctx: Context) -> None:
+    ctx.rule("C17.R9", "Graph.remove takes the node out of the parent list of each of its CHILDREN (the entries add_child made) and drops its child list")
+    fn = method(_graph_cls(ctx), "remove")
+    ctx.analysed_function(f"{GRAPH}::Graph.remove")
+    node = fn.args.args[1].arg
+    edits = [c for c in calls_in(fn, "remove") if isinstance(c.func.value, ast.Subscript) and is_self_attr(c.func.value.value, "_parent_graph")]
+    ctx.floor("C17.R9", "parent-list removals in Graph.remove", len(edits), 1)
+    for c in edits:
+        it = iteration_around(c)
+        over = norm(it.iter) if it is not None else "?"
+        ok = it is not None and norm(c.func.value.slice) == norm(it.target) and over in (f"self.get_children({node})", f"self._graph[{node}]") \
+            and c.args and norm(c.args[0]) == node
+        ctx.check(ok, "C17.R9", "Graph.remove|detaches the node from the parent lists of its children", loc(c), f"for child in {over}",
+                  f"`{norm(c)}` runs for `{norm(it.target) if it is not None else '?'}` in `{over}`: the reverse adjacency that add_child wrote for the node's "
+                  "children keeps naming the removed node as a parent (get_parents / is_source / the traversals read it)")
+    dels = [d for d in ast.walk(fn) if isinstance(d, ast.Delete) and any(isinstance(t, ast.Subscript) and is_self_attr(t.value, "_graph") and norm(t.slice) == node for t in d.targets)]
+    pops = [c for c in calls_in(fn, "pop") if is_self_attr(c.func.value, "_graph") and c.args and norm(c.args[0]) == node]
+    ctx.check(bool(dels or pops), "C17.R9", "Graph.remove|drops the node's child list", loc(fn), "del self._graph[node]", "the node stays in the child map")
+
+
 MAPS = ("_graph", "_parent_graph")
 MUTATING_CALLS = ("append", "extend", "remove", "pop", "clear", "update", "insert", "setdefault", "popitem")
 
@@ -618,4 +639,5 @@ def run(ctx: Context) -> None:
     ctx.isolate(r6_weights_in_one_unit)
     ctx.isolate(r6b_critical_path_is_runtime)
     ctx.isolate(r7_adjacency_maps_in_step)
+    ctx.isolate(r9_remove_detaches_children)
     ctx.isolate(cache_coherence, "C17.R8", ("Graph", "TaskGraph", "JobGraph"), "orders, depths, paths and critical-path runtimes are answers about the current graph", 3)
